@@ -1195,6 +1195,17 @@ impl EvCell {
                 }
             }
         }
+        if (self.oracles.c07 || self.oracles.c09) && self.cfg.auth != Auth::Custom {
+            // A connected client with the same protocol is authorized once its handshake went through.
+            for c in 0..self.clients() {
+                if x.sim.clients[c].conn.is_some() && !self.cfg.mismatch.contains(&c) && !x.sim.is_authorized(c) {
+                    return Err(self.v(
+                        "not-authorized",
+                        format!("c{c} is connected with the same protocol and everything was delivered, but it was never authorized"),
+                    ));
+                }
+            }
+        }
         if self.oracles.convergence {
             let server = x.sim.server_snap();
             for c in 0..self.clients() {
